@@ -7,7 +7,7 @@ ENVV=$(tools/mutclone.py seed_$S $D/patch.diff 2>>$L | tail -1)
 case "$ENVV" in VERIF_REPO=*) ;; *) echo "SEED $S build=FAILED" | tee -a /tmp/seedrun/summary.txt; exit 1;; esac
 B=/tmp/vmut/seed_$S/build/sg
 demo() { # demo <build> <src>: the seed's own run.sh, or a plain compile-and-run when run.sh cannot find the headers
-  ( cd $D && timeout 600 sh run.sh $1 $2 ) >> $L 2>&1; r=$?
+  ( cd $D && SRC=$2 timeout 600 sh run.sh $1 $2 ) >> $L 2>&1; r=$?
   if [ $r -eq 3 ] || [ $r -eq 99 ]; then
     g++ -std=c++17 -O1 -I$2/include -I$1/include $D/demo.cpp -o /tmp/seedrun/$S.demo -L$1/lib -lsimgrid -Wl,-rpath,$1/lib >> $L 2>&1 || return 98
     LD_LIBRARY_PATH=$1/lib timeout 600 /tmp/seedrun/$S.demo --log=root.thres:critical --cfg=debug/stacktrace:none >> $L 2>&1; r=$?
